@@ -222,10 +222,22 @@ class Unbuildable(Exception):
 
 
 def _dtype(dt):
+    """dtype description: a string, a list of fields [name | [title, name], dtype, (subarray shape)]
+    (dtype may itself be such a list: nested), or {"names", "formats", "offsets", "itemsize"}."""
     import numpy as np
 
     if isinstance(dt, list):
-        return np.dtype([(n, _dtype(t)) for n, t in dt])
+        fields = []
+        for f in dt:
+            name = tuple(f[0]) if isinstance(f[0], list) else f[0]
+            if len(f) > 2:
+                fields.append((name, _dtype(f[1]), tuple(f[2])))
+            else:
+                fields.append((name, _dtype(f[1])))
+        return np.dtype(fields)
+    if isinstance(dt, dict):
+        return np.dtype({"names": dt["names"], "formats": [_dtype(f) for f in dt["formats"]],
+                         "offsets": dt["offsets"], "itemsize": dt["itemsize"]})
     return np.dtype(dt)
 
 
@@ -276,11 +288,14 @@ def _build_nd(p, st):
     shape = tuple(p["shape"])
     nd = len(shape)
     vals = p.get("vals")
-    if vals is None:          # compact form of a large integer array: arange(n) with a few elements set
+    if p.get("raw") is not None:      # the C-order buffer itself (any dtype, structured / void included)
+        L0 = np.frombuffer(bytes.fromhex(p["raw"]), dtype=dt).reshape(shape).copy()
+        vals = None
+    elif vals is None:          # compact form of a large integer array: arange(n) with a few elements set
         vals = list(range(p["arange"]))
         for i, x in p.get("set", []):
             vals[i] = x
-    L = _logical(vals, dt, shape, st)
+    L = L0 if p.get("raw") is not None else _logical(vals, dt, shape, st)
     lay = p.get("lay")
     mm = bool(p.get("mm"))
     if nd == 0 or (lay is None and not mm):
@@ -310,6 +325,8 @@ def _build_nd(p, st):
     bc = p.get("bc")
     if bc is not None:
         arr = np.broadcast_to(arr, tuple(bc))
+    if p.get("rec"):
+        arr = arr.view(np.recarray)
     return arr
 
 
@@ -964,6 +981,9 @@ def feature_of(v):
                 f.append("object-array")
                 if v.ndim:
                     return "&".join(f)       # tokenized through join / pickle: layout is not the feature
+            if _has_padding(v.dtype):
+                f.append("padded-struct-dtype")      # bytes that belong to no field: not observable
+                return "&".join(f)
             if v.ndim == 0:
                 f.append("0-d")
             elif any(s == 0 and n > 1 for s, n in zip(v.strides, v.shape)):
@@ -1015,6 +1035,20 @@ def _has_unordered(k):
     return False
 
 
+def _has_padding(dt):
+    if dt.subdtype is not None:
+        return _has_padding(dt.subdtype[0])
+    if not dt.names:
+        return False
+    used = 0
+    for n in dt.names:
+        fdt = dt.fields[n][0]
+        if _has_padding(fdt):
+            return True
+        used += fdt.itemsize
+    return used != dt.itemsize
+
+
 def children(v):
     """Immediate components of builtin containers / dataclasses / partials (for blame)."""
     t = type(v)
@@ -1040,7 +1074,7 @@ def children(v):
         import pandas as pd
 
         if isinstance(v, pd.MultiIndex):
-            return [v.get_level_values(i) for i in range(v.nlevels)]
+            return list(v.levels)
         if isinstance(v, pd.RangeIndex):
             return []
         if isinstance(v, pd.Index):
@@ -2406,6 +2440,93 @@ def g_xtype_pair(r):
     return a, b
 
 
+# ---- dtypes that share item size and raw bytes ---------------------------------------------
+
+_DT8 = [  # 8-byte items
+    "<i8", "<u8", "<f8", "<c8", "<M8[ns]", "<M8[s]", "<M8[ms]", "<m8[ns]", "<m8[s]", ">i8", ">f8", "|S8", "|V8", "<U2",
+    [["a", "<i8"]], [["x", "<i8"]], [["a", "<f8"]],
+    [["a", "<i4"], ["b", "<i4"]], [["x", "<i4"], ["y", "<i4"]], [["b", "<i4"], ["a", "<i4"]],
+    [["a", "<i4"], ["b", "<f4"]], [["a", "<f4"], ["b", "<i4"]], [["a", "<u4"], ["b", "<i4"]], [["a", ">i4"], ["b", "<i4"]],
+    [["a", "<i4", [2]]], [["a", "<i2", [2, 2]]], [["a", "<i2", [4]]],
+    [["a", [["p", "<i4"], ["q", "<i4"]]]], [["a", [["p", "<i4"]]], ["b", "<i4"]], [["a", [["p", "<i4"], ["q", "<f4"]]]],
+    [[["title a", "a"], "<i4"], ["b", "<i4"]], [[["other title", "a"], "<i4"], ["b", "<i4"]],
+    {"names": ["a", "b"], "formats": ["<i4", "<i4"], "offsets": [0, 4], "itemsize": 8},
+    {"names": ["a", "b"], "formats": ["<i4", "<i4"], "offsets": [4, 0], "itemsize": 8},
+    {"names": ["a"], "formats": ["<i4"], "offsets": [0], "itemsize": 8},
+    {"names": ["a"], "formats": ["<i4"], "offsets": [4], "itemsize": 8},
+    [["a", "|S4"], ["b", "<i4"]], [["a", "|V4"], ["b", "<i4"]], [["a", "|b1", [4]], ["b", "<i4"]], [["a", "|u1", [4]], ["b", "<i4"]],
+]
+_DT4 = ["<i4", "<u4", "<f4", ">i4", ">u4", ">f4", "|S4", "|V4", "<U1", [["a", "<i4"]], [["a", "<f4"]], [["x", "<i4"]],
+        [["a", "<i2"], ["b", "<i2"]], [["x", "<i2"], ["y", "<i2"]], [["a", "<i2", [2]]], [["a", "|u1", [4]]], [["a", "|b1", [4]]],
+        [["a", "|i1"], ["b", "|u1"], ["c", "<i2"]], [["a", "<f2"], ["b", "<i2"]]]
+_DT3 = ["|S3", "|V3", [["a", "|u1", [3]]], [["a", "|u1"], ["b", "|i1"], ["c", "|b1"]], [["a", "|S1"], ["b", "|S2"]],
+        [["a", "|b1", [3]]], [["x", "|u1"], ["y", "|i1"], ["z", "|b1"]], [["a", "|S3"]]]
+_DT1 = ["|b1", "|u1", "|i1", "|S1", "|V1", [["a", "|u1"]], [["a", "|b1"]], [["b", "|u1"]]]
+
+
+def _raw_item(r, size):
+    """Bytes of one item that every dtype of the group can hold: each aligned 4-byte word is a small
+    code point (valid for U), every byte is 0/1 or ASCII (valid for bool when 0/1)."""
+    c = r.random()
+    if size in (1, 3):
+        return bytes(r.choice((0, 1, 1)) for _ in range(size)) if c < 0.6 else bytes(r.choice((0, 1, 97, 98)) for _ in range(size))
+    out = b""
+    for _ in range(size // 4):
+        if c < 0.5:
+            out += bytes((r.choice((0, 1)), r.choice((0, 1)), 0, 0))
+        elif c < 0.8:
+            out += bytes((r.choice((97, 98, 1, 0)), 0, 0, 0))
+        else:
+            out += bytes((r.choice((0, 1, 2, 97)), r.choice((0, 1)), r.choice((0, 1)), 0))
+    return out
+
+
+def _needs_bool_bytes(dt):
+    return "b1" in json_dumps(dt)
+
+
+def json_dumps(o):
+    import json
+
+    return json.dumps(o)
+
+
+def g_structdt_pair(r):
+    """Arrays with the same raw buffer, shape and item size under two different dtypes
+    (field names, field types, grouping, nesting, titles, offsets, units, byte order, S/U/V),
+    or the same dtype with one byte changed, or ndarray vs recarray."""
+    size, group = r.choice(((8, _DT8), (8, _DT8), (8, _DT8), (4, _DT4), (4, _DT4), (3, _DT3), (1, _DT1)))
+    shape = list(r.choice([[2], [3], [1], [2, 2], [4], [2, 3]]))
+    n = _prod(shape)
+    raw = b"".join(_raw_item(r, size) for _ in range(n))
+    da, db = r.sample(group, 2)
+    if any(_needs_bool_bytes(d) for d in (da, db)) or any(isinstance(d, str) and d[1] == "U" for d in (da, db)):
+        # keep bool bytes 0/1 and code points small
+        raw = bytes((b & 1) if (i % 4 != 0 or _needs_bool_bytes(da) or _needs_bool_bytes(db)) else b for i, b in enumerate(raw))
+    c = r.random()
+    lay = (lambda: g_layout(r, shape) if r.random() < 0.35 else None)
+    a = {"dt": da, "shape": shape, "raw": raw.hex(), "lay": lay(), "mm": False}
+    if c < 0.72:
+        b = {"dt": db, "shape": shape, "raw": raw.hex(), "lay": lay(), "mm": False}
+    elif c < 0.86:
+        i = r.randrange(len(raw))
+        raw2 = raw[:i] + bytes((raw[i] ^ 1,)) + raw[i + 1:]
+        b = {"dt": da, "shape": shape, "raw": raw2.hex(), "lay": lay(), "mm": False}
+    elif c < 0.93 and not isinstance(da, str):
+        b = dict(a, rec=True)             # recarray of the same dtype: another type
+    else:
+        # same values under the other byte order (bytes differ), only for plain numeric dtypes
+        if isinstance(da, str) and da[0] in "<>" and da[1] in "iuf":
+            import numpy as np
+
+            A = np.frombuffer(raw, dtype=np.dtype(da))
+            other = (">" if da[0] == "<" else "<") + da[1:]
+            b = {"dt": other, "shape": shape, "raw": A.astype(np.dtype(other)).tobytes().hex(), "lay": None, "mm": False}
+        else:
+            b = {"dt": db, "shape": shape, "raw": raw.hex(), "lay": None, "mm": False}
+    return ["nd", a], ["nd", b]
+
+
 def g_joinbytes_pair(r):
     A, B = g_join_lists(r)
     mk = lambda W: ["nd", {"dt": "|O", "shape": [len(W)], "vals": [d_bytes(w.encode()) for w in W], "lay": None, "mm": False}]
@@ -2487,6 +2608,7 @@ FAMILIES = {
     "nd0": (_nd0, 2, True),
     "samebuf": (_pair(g_samebuf_pair), 6, True),
     "viewdtype": (_pair(g_viewdtype_pair), 2, True),
+    "structdt": (_pair(g_structdt_pair), 6, True),
     "objarr": (_mut(g_objarr, mutate_objarr), 5, True),
     "join": (_join, 5, True),
     "joinbytes": (_pair(g_joinbytes_pair), 1, True),
